@@ -23,7 +23,14 @@ INPUTS = ["u", "v"]
 
 # ---------------------------------------------------------------------------------------------- impl side (worker)
 def build(case):
-    from pyrates.frontend import OperatorTemplate, NodeTemplate, CircuitTemplate
+    from pyrates.frontend import OperatorTemplate, NodeTemplate, CircuitTemplate, EdgeTemplate
+    # edge template with a second input that is addressed by a variable path held as a string-valued edge attribute
+    eop = OperatorTemplate("eop", equations=["m = s_in + t_ref"], variables={"m": "output(0.0)", "s_in": "input(0.0)", "t_ref": "input(0.0)"})
+    etpl = EdgeTemplate("et", operators=[eop])
+    def mk_edge(e):
+        if len(e) > 3:
+            return (e[0], e[1], etpl, {"weight": float(Fr(e[2])), "et/eop/s_in": "source", "et/eop/t_ref": e[3]})
+        return (e[0], e[1], None, {"weight": float(Fr(e[2]))})
     ops = []
     for o in case["ops"]:
         lib = OPLIB[o["name"]]
@@ -34,6 +41,8 @@ def build(case):
                 variables[var] = f"{lib['kind']}({f!r})"
             elif var == lib["inp"]:
                 variables[var] = f"input({f!r})"
+            elif var in o.get("intform", []):    # declared by a bare Python int (dtype 'int'): finding D97
+                variables[var] = int(Fr(v))
             elif var in o.get("dictform", []):   # explicit declaration {'vtype','dtype','shape','value'}
                 variables[var] = {"vtype": "constant", "dtype": "float", "shape": (1,), "value": f}
             else:
@@ -44,7 +53,7 @@ def build(case):
         nodes.append(NodeTemplate(f"n{i}", operators={ops[oi]: {var: float(Fr(v)) for var, v in vs} for oi, vs in n["ops"]}))
     circs = []
     for i, c in enumerate(case["circs"]):
-        edges = [(s, t, None, {"weight": float(Fr(w))}) for s, t, w in c["edges"]]
+        edges = [mk_edge(e) for e in c["edges"]]
         if c["leaf"]:
             circs.append(CircuitTemplate(f"ct{i}", nodes={k: nodes[j] for k, j in c["children"]}, edges=edges))
         else:
@@ -172,6 +181,8 @@ def impl(case):
 
 # ---------------------------------------------------------------------------------------------- generator
 def dy8(rng, lo=-32, hi=32):
+    if rng.random() < 0.12:                      # integer values as well (int overrides of float declarations and vice versa)
+        return str(Fr(rng.randint(-4 if lo < 0 else 1, max(1, hi // 8))))
     return str(Fr(rng.randint(lo, hi), 8))
 
 
@@ -247,7 +258,13 @@ def gen_case(rng, maxlen):
     for n in opnames:
         lib = OPLIB[n]
         defs = [[lib["state"], dy8(rng)]] + [[k, dy8(rng)] for k in lib["consts"]] + ([[lib["inp"], "0"]] if lib["inp"] else [])
-        ops.append(dict(name=n, defs=defs, dictform=[k for k in lib["consts"] if rng.random() < 0.25]))
+        o_ = dict(name=n, defs=defs, dictform=[k for k in lib["consts"] if rng.random() < 0.25])
+        # constants declared by a bare integer (dtype 'int'; finding D97: a non-integral override is truncated)
+        o_["intform"] = [k for k in lib["consts"] if k not in o_["dictform"] and rng.random() < 0.12]
+        for dv in defs:
+            if dv[0] in o_["intform"]:
+                dv[1] = str(rng.randint(-4, 4))
+        ops.append(o_)
     nodes = []
     for _ in range(rng.randint(1, 3)):
         byname = {}
@@ -439,17 +456,32 @@ def nontrivial(case):
     return len(case["hist"]) >= 2 and shared_objects(case)
 
 # ---------------------------------------------------------------------------------------------- model side
+import re as _re
+
+def _switch(name, env, vfile="Values.v"):
+    """a one-line switch of the model (`Definition <name> : bool := ...`), overridable by the environment variable"""
+    v = os.environ.get(env)
+    if v is not None:
+        return v.strip() in ("1", "true")
+    txt = open(os.path.join(COQ, "theories", vfile)).read()
+    return _re.search(r"Definition %s : bool := (true|false)\." % name, txt).group(1) == "true"
+
+
+FIXED_D97 = _switch("fixed_D97", "VERIF_C07_D97_FIXED")     # fixes/fix_D97.diff: the dtype of an int-declared variable follows the value
+GUARD = "int_exact"
 HEADER = """From Coq Require Import List String ZArith QArith Qcanon Bool.
-From PV Require Import Heap Values Corr.
+From PV Require Import Heap Values ValuesProofs Corr.
 Import ListNotations.
-Definition ccase := (nat * id * heap * list string * list hop * list pyout)%type.
-Definition okI (c : ccase) := let '(d, r, h, inputs, ops, pys) := c in outs_ok inputs (snd (runI d (init_state h r) ops)) pys.
+Definition fixed : bool := %s.
+Definition ccase := (nat * id * heap * list string * list hop * list pyout)%%type.
+Definition okI (c : ccase) := let '(d, r, h, inputs, ops, pys) := c in outs_ok inputs (snd (runI_gen fixed d (init_state h r) ops)) pys.
 Definition okS (c : ccase) := let '(d, r, h, inputs, ops, pys) := c in
   match abs d h r with Some t => outs_ok inputs (snd (runS d t ops)) pys | None => false end.
-Definition guard (c : ccase) := true.
+Definition guard (c : ccase) := let '(d, r, h, inputs, ops, pys) := c in
+  match abs d h r with Some t => orb fixed (int_exact d t ops) | None => false end.
 Definition wf (c : ccase) := let '(d, r, h, inputs, ops, pys) := c in
   match abs d h r with Some t => true | None => false end.
-"""
+""" % ("true" if FIXED_D97 else "false")
 
 
 class Intern:
@@ -487,13 +519,15 @@ def coq_heap(case):
     nops, nnodes = len(case["ops"]), len(case["nodes"])
     objs = []
     for o in case["ops"]:
-        objs.append(f"OOp {cstr(o['name'])} [{cstr(OPLIB[o['name']]['eq'])}] {cvars(o['defs'])}")
+        defs = clist([f"({cstr(k)}, " + (f"ScI ({int(Fr(v))})%Z" if k in o.get("intform", []) else cval(v)) + ")" for k, v in o["defs"]])
+        objs.append(f"OOp {cstr(o['name'])} [{cstr(OPLIB[o['name']]['eq'])}] {defs}")
     for n in case["nodes"]:
         objs.append("ONode " + clist([f"({cnat(oi)}, {cvars(vs)})" for oi, vs in n["ops"]]))
     for c in case["circs"]:
         off = nops if c["leaf"] else nops + nnodes
         ch = clist([f"({cstr(k)}, {cnat(off + j)})" for k, j in c["children"]])
-        es = clist([f"({cstr(s)}, {cstr(t)}, [({cstr('weight')}, {cval(w)})])" for s, t, w in c["edges"]])
+        es = clist([f"({cstr(e[0])}, {cstr(e[1])}, [({cstr('weight')}, {cval(e[2])})" +
+                    (f"; ({cstr('et/eop/t_ref')}, Ref {cstr(e[3])})" if len(e) > 3 else "") + "])" for e in c["edges"]])
         objs.append(f"OCirc {ch} {es}")
     return clist(objs), nops + nnodes + len(case["circs"]) - 1
 
@@ -552,7 +586,7 @@ def model_outputs(ctx, case, outs, tag):
     term = coq_case(case, outs)
     body = (TAB.defs() + f"Definition c : ccase := {term}.\n"
             "Eval vm_compute in (let '(d, r, h, inputs, ops, pys) := c in match abs d h r with Some t => Some (snd (runS d t ops)) | None => None end).\n"
-            "Eval vm_compute in (let '(d, r, h, inputs, ops, pys) := c in snd (runI d (init_state h r) ops)).\n")
+            "Eval vm_compute in (let '(d, r, h, inputs, ops, pys) := c in snd (runI_gen fixed d (init_state h r) ops)).\n")
     try:
         return coq_eval(ctx, f"c07_show_{tag}", HEADER, body)[:8000]
     except Exception as e:
@@ -596,10 +630,16 @@ def check(ctx):
     badI = [good[i] for i in badI]; badS = [good[i] for i in badS]; gfalse = [good[i] for i in gfalse]
     assert not ill, f"generator produced an ill-formed store: {ill[:5]}"
     ctx.note(f"E1: {len(cases)} histories, {sum(len(c['hist']) + 1 for c in cases)} operations; impl-vs-Impl mismatches {len(badI)}, "
-             f"impl-vs-Spec mismatches {len(badS)}, harness/worker errors {len(crashed)}; "
+             f"impl-vs-Spec mismatches {len(badS)} (of which outside the guard int_exact: {len([i for i in badS if i in gfalse])}), harness/worker errors {len(crashed)}; "
+             f"histories outside the guard: {len(gfalse)}; with an int-declared constant: {sum(1 for c in cases if any(o.get('intform') for o in c['ops']))}; "
              f"histories with update_template(edges, in_place=True): {sum(1 for c in cases if any(h[0] == 'updtpl' and h[1] and h[3] for h in c['hist']))}; "
              f"histories with a sub-circuit object registered under two names: {sum(1 for c in cases if shared_subcircuit(c))}")
+    def witness_check(f):
+        w = json.load(open(os.path.join(VERIF, f["witness"])))
+        return fails(ctx, w, "wit")[0]
+    ctx.note(f"switch fixed_D97={FIXED_D97} (guard int_exact {'dropped' if FIXED_D97 else 'active'})")
     conclude(ctx, cases=cases, impl_out=outs, bad_spec=badS, bad_impl=badI, crashed=crashed, problem=problem,
+             guard_viol={i: [GUARD] for i in gfalse}, witness_check=witness_check,
              spec_name="Values.runS (updates on the unshared tree: exactly the addressed paths change)", impl_name="Values.runI",
              shrink=lambda c: shrink(ctx, c),
              show=lambda c: (lambda r: dict(implementation_output=r, model_output=model_outputs(ctx, c, r, "show") if not isinstance(r, dict) else None))(fails(ctx, c, "show")[1]))
